@@ -106,5 +106,30 @@ def run(env):
                 ck2 = {"ctx": "R", "op": "check_proof", "args": [d[3], d[2], pr[0], d[0], d[1], "x:aa"], "tag": "ristretto-wire"}
                 if env.harness([ck2])[0] is not True:
                     env.violation("honest ristretto shuffle proof rejected after the serialization round trip, N=%d" % n, {"kind": "battery", "case": ck2})
+    # ONE Shuffler value shuffling and proving several statements in a row (same size, different ciphertexts and labels):
+    # every output and proof must be what a fresh Shuffler produces from the same RNG script, and must verify
+    for ctx in ("B:2039", "M:%d" % P62, "R"):
+        n = 3
+        gens_ = env.harness([{"ctx": ctx, "op": "generators", "args": [str(n + 1), "x:7365"], "tag": "prover-reuse"}])[0]
+        if ctx == "R":
+            pk_ = pk
+            mk = lambda: [[a_, b_] for a_, b_ in zip(*[iter(env.harness([{"ctx": "R", "op": "gpow", "args": [str(r.randrange(L))]} for _ in range(2 * n)]))] * 2)]
+        else:
+            P_, q_, g_ = pq(ctx); pk_ = str(pow(g_, 77, P_))
+            mk = lambda: [[str(rnd_member(r, ctx)), str(rnd_member(r, ctx))] for _ in range(n)]
+        steps = [[mk(), lab, script(r, 200 * n + 512), script(r, 100 * (4 * n + 4) + 512)] for lab in ("x:", "x:6162", "x:" + "41" * 64, "x:")]
+        got = env.harness([{"ctx": ctx, "op": "shuffle_prove_seq", "args": [pk_, gens_, steps], "tag": "prover-reuse"}])[0]
+        for k_, st_ in enumerate(steps):
+            sh_ = env.harness([{"ctx": ctx, "op": "gen_shuffle", "args": [pk_, st_[0], st_[2]], "tag": "prover-reuse-ref"}])[0]
+            pr_ = env.harness([{"ctx": ctx, "op": "gen_proof", "args": [pk_, gens_, st_[0], sh_[0], sh_[1], sh_[2], st_[1], st_[3]], "tag": "prover-reuse-ref"}])[0]
+            want = [sh_[0], sh_[1], sh_[2], pr_[0]] if isinstance(pr_, list) else "err"
+            if not isinstance(got, list) or got[k_] != want:
+                env.violation("one Shuffler value proving a sequence of statements on %s: step %d differs from what a fresh Shuffler produces from the same RNG script" % (ctx, k_),
+                              {"kind": "battery", "case": {"ctx": ctx, "op": "shuffle_prove_seq", "args": [pk_, gens_, steps[: k_ + 1]]}, "out": str(got)[:300]})
+                break
+            ck_ = {"ctx": ctx, "op": "check_proof", "args": [pk_, gens_, want[3], st_[0], want[0], st_[1]], "tag": "prover-reuse-verify"}
+            if env.harness([ck_])[0] is not True:
+                env.violation("proof #%d of a sequence made by one Shuffler value is rejected on %s" % (k_, ctx), {"kind": "battery", "case": ck_})
+                break
     if fails:
         env.tie_violation("C03", fails)
